@@ -37,6 +37,14 @@ key = f"{prop}-{name}"
 first = ("missed by the checks as they were; generator/oracle strengthened, now detected" if key in st["missed_then_strengthened"]
          else "check strengthened from the author's description before the first run; now detected"
          if key in st["strengthened_from_description_before_first_run"] else "detected at the first run")
+prev = {}
+if os.path.exists(out + "/meta.json"):
+    try:
+        prev = json.load(open(out + "/meta.json"))
+    except Exception:
+        prev = {}
+if suite == "skipped" and prev.get("repo_test_suite_with_change", "skipped") != "skipped":
+    suite = prev["repo_test_suite_with_change"]          # keep the result of an earlier full-suite run (tools/suite_mutant.sh)
 meta = {"property": prop, "name": name, "breaks": prop, "needs_to_manifest": notes.strip()[:1500],
         "demo_exit_clean": int(rc_clean), "demo_exit_with_change": int(rc_mut),
         "repo_test_suite_with_change": suite, "checks_against_change": det,
@@ -44,6 +52,8 @@ meta = {"property": prop, "name": name, "breaks": prop, "needs_to_manifest": not
         "commands": ["git -C /repo worktree add --detach <wt> HEAD", "PYTHONPATH=<wt> python demo.py  (clean)", "git apply patch.diff",
                      "PYTHONPATH=<wt> python demo.py  (changed)", "PYTHONPATH=<wt> python -m pytest -q -p no:cacheprovider --timeout=900 -x",
                      "VERIF_REPO=<wt> ./check <PROP> --tier quick"]}
+if "suite_imported_torchsde_from" in prev:
+    meta["suite_imported_torchsde_from"] = prev["suite_imported_torchsde_from"]
 json.dump(meta, open(out + "/meta.json", "w"), indent=1)
 print(f"{prop}-{name}: demo clean={rc_clean} changed={rc_mut} suite=[{suite}] :: {det}")
 PY
